@@ -59,6 +59,7 @@ def plan(tier, seed):
     specs.append({"kind": "families"})
     specs.append({"kind": "big", "count": 2 if tier == "quick" else 12})
     specs.append({"kind": "signprobe", "count": 40 if tier == "quick" else 600})
+    specs.append({"kind": "records", "count": 30 if tier == "quick" else 600})
     for T in ([4] if tier == "quick" else [2, 4, 8, 16]):
         specs.append({"kind": "shared_threads", "threads": T, "count": 12 if tier == "quick" else 80})
     cfgs = CONFIGS[:8] if tier == "quick" else CONFIGS
@@ -416,7 +417,62 @@ def run_shared_threads(spec, rec, lib):
             rec.count("shared_object_changed_by_serialising")
 
 
+def run_records(spec, rec, lib):
+    """the bytes that are SIGNED are the frozen format on every signing path: artifact records signed through the repodata
+    path (flat records of every scalar type, nested ones, empty ones) carry the RFC 8032 signature over the reference bytes"""
+    from ..refs import ed25519
+
+    rng = random.Random(spec["seed"])
+    S = lib.signing
+    fn = os.path.join(spec["scratch"], "records.json")
+    k = gkeys.key(rng.randrange(6))
+    for i in range(spec["count"]):
+        recs = {}
+        for j in range(rng.randint(2, 8)):
+            r = rng.random()
+            if r < 0.5:
+                # flat record: string keys, scalar / list-of-string members (the everyday shape of repodata)
+                m = {}
+                for _ in range(rng.randint(0, 7)):
+                    m[rng.choice(["name", "version", "build", "noarch", "size", "timestamp", "track_features", "license", "x", "é"])] = rng.choice(
+                        [True, False, None, 0, 1, -1, 2**31, 2**63, 10**20, 1.0, 0.5, 1e22, "", "a", "true", "1", "é", "a, b", ["x"], [], ["a >=1, <2", "b"]])
+                recs["flat-%d-%d.tar.bz2" % (i, j)] = m
+            elif r < 0.8:
+                recs["rand-%d-%d.conda" % (i, j)] = jsonvals.rand_value(rng, 0, 3, 4)
+            else:
+                recs["scalar-%d-%d.tar.bz2" % (i, j)] = jsonvals.rand_scalar(rng)
+        if has_pair(recs):
+            continue
+        doc = {"packages": {n: v for n, v in recs.items() if not n.endswith(".conda")}, "packages.conda": {n: v for n, v in recs.items() if n.endswith(".conda")}}
+        with open(fn, "w") as f:
+            json.dump(doc, f)
+        parsed = json.load(open(fn))
+        o = boundary.call(lib, S.sign_all_in_repodata, fn, k.seed.hex())
+        rec.case("records|%d" % i)
+        case = {"kind": "records", "doc": doc, "key": k.seed.hex()}
+        if not o.accepted:
+            rec.count("records_signing_raised:%s" % o.cls)
+            continue
+        got = json.load(open(fn)).get("signatures", {})
+        for sec in ("packages", "packages.conda"):
+            for name, md in parsed[sec].items():
+                try:
+                    ref = canonjson.canon(md)
+                except canonjson.Unsupported:
+                    continue
+                rec.count("record_signatures_compared")
+                want = ed25519.sign(k.seed, ref).hex()
+                have = (got.get(name) or {}).get(k.hex, {}).get("signature") if isinstance(got.get(name), dict) else None
+                if have != want:
+                    rec.violation("frozen-format/sign_all_in_repodata/record-signed-over-other-bytes",
+                                  "the signature filed for an artifact record is not the RFC 8032 signature over the record's canonical bytes "
+                                  "(record: %s)" % json.dumps(md)[:120], case)
+                    return
+
+
 def run_shard(spec, rec, lib):
+    if spec.get("kind") == "records":
+        return run_records(spec, rec, lib)
     if spec.get("kind") == "shared_threads":
         return run_shared_threads(spec, rec, lib)
     if spec.get("cwd") == "@nonascii":
